@@ -462,6 +462,14 @@ class REPEX_state:
         if not self.cstep < self.tsteps:
             return False
 
+        # With fewer steps left than workers (a restart that adds a few
+        # steps), the jobs already started cover all remaining steps:
+        # starting more would leave them in flight when the run ends.
+        started = self.workers - self.toinitiate
+        if 0 < self.toinitiate and not self.cstep + started < self.tsteps:
+            self.toinitiate = -1
+            return False
+
         self.cworker = self.workers - self.toinitiate
 
         if self.toinitiate == self.workers:
